@@ -2044,6 +2044,7 @@ fuzzy_info = {json.dumps(ret)};
         '''
 
         # Resolve Arguments
+        FlowIR = experiment.model.frontends.flowir.FlowIR
         arguments = self.commandDetails.get('arguments')
         if arguments is None:
             return ""
@@ -2113,10 +2114,11 @@ fuzzy_info = {json.dumps(ret)};
             if reference.method in [DataReference.Output, DataReference.LoopOutput]:
                 # VV: The reference value is in fact the CONTENTS of the file that the data-reference points to
                 reference_value = reference_value or ""
-                if arguments.find(reference.absoluteReference) != -1:
-                    arguments = arguments.replace(reference.absoluteReference, reference_value)
-                elif arguments.find(reference.relativeReference) != -1:
-                    arguments = arguments.replace(reference.relativeReference, reference_value)
+                # VV: Only replace whole reference tokens ("A:output" is not part of "BA:output" or "stage1.A:output")
+                if FlowIR.contains_reference(arguments, reference.absoluteReference):
+                    arguments = FlowIR.replace_reference(arguments, reference.absoluteReference, reference_value)
+                elif FlowIR.contains_reference(arguments, reference.relativeReference):
+                    arguments = FlowIR.replace_reference(arguments, reference.relativeReference, reference_value)
                 else:
                     if unused is not None:
                         unused.append(experiment.model.errors.UnusedDataReferenceError(self.identification.identifier,
@@ -2135,7 +2137,8 @@ fuzzy_info = {json.dumps(ret)};
             elif reference_value is not None and reference.method in [DataReference.Ref, DataReference.LoopRef]:
                 # VV: The reference_value is definitely a path because it's a "ref" type
                 path = reference_value
-                if arguments.find(reference.absoluteReference) == -1 and arguments.find(reference.relativeReference) == -1:
+                if not FlowIR.contains_reference(arguments, reference.absoluteReference) \
+                        and not FlowIR.contains_reference(arguments, reference.relativeReference):
                     if unused is not None:
                         unused.append(experiment.model.errors.UnusedDataReferenceError(self.identification.identifier,
                                                                                        reference,
@@ -2148,10 +2151,11 @@ fuzzy_info = {json.dumps(ret)};
                                          )))
                 else:
                     # Resolve the reference in the command line
-                    if arguments.find(reference.absoluteReference) == -1:
-                        arguments = arguments.replace(reference.relativeReference, path)
+                    # VV: Only replace whole reference tokens ("A:ref" is not part of "BA:ref" or "stage1.A:ref")
+                    if not FlowIR.contains_reference(arguments, reference.absoluteReference):
+                        arguments = FlowIR.replace_reference(arguments, reference.relativeReference, path)
                     else:
-                        arguments = arguments.replace(reference.absoluteReference, path)
+                        arguments = FlowIR.replace_reference(arguments, reference.absoluteReference, path)
 
         # Check for unresolved/undeclared references in CL - this is anything of form :ref :link
 
